@@ -263,7 +263,15 @@ func runC14(c *Ctx) {
 			cfgs[i].lateSNI = ""
 		}
 		if late := v.lateSNI; late != "" && idi.ID != tls.HelloGolang {
+			// (a third of these hellos carry no server_name extension at all: the name on the wire and
+			// the name to authenticate are then unrelated)
+			noSNIExt := ch.Bool(33, "late-sni-without-extension")
 			sp.Prep = func(u *tls.UConn) error {
+				if noSNIExt {
+					if err := u.RemoveSNIExtension(); err != nil {
+						return err
+					}
+				}
 				if err := u.BuildHandshakeState(); err != nil {
 					return err
 				}
